@@ -13,6 +13,8 @@ rc, out = sh(["git", "-C", "/repo", "status", "--short"])
 if out.strip():
     print("/repo not clean"); sys.exit(2)
 res = {"property": prop, "change": "h" + n, "summary": meta.get("summary"), "kind": meta.get("kind")}
+evp = "/verif/evidence/%s.json" % prop
+evidence_backup = open(evp, "rb").read() if os.path.exists(evp) else None
 try:
     rc, out = sh(["git", "-C", "/repo", "apply", diff])
     res["applies"] = rc == 0
@@ -28,6 +30,8 @@ try:
             res["alarm"] = {k: (str(r.get(k))[:500]) for k in ("kind", "key", "detail", "payload")}
 finally:
     sh(["git", "-C", "/repo", "checkout", "--", "."]); sh(["git", "-C", "/repo", "clean", "-fdq"])
+    if evidence_backup is not None:
+        open(evp, "wb").write(evidence_backup)  # the evidence file describes the unchanged tree
 os.makedirs("/verif/harmless", exist_ok=True)
 d = "/verif/harmless/%s-h%s" % (prop, n)
 if res.get("applies") and res.get("suite_green"):
